@@ -800,7 +800,9 @@ func (c *SpecCtx) loadAt(addr Val, t types.Type) Val {
 	case *LocalAddr:
 		return pathGet(a.cell.v, a.path)
 	case *HeapAddr:
-		return Select(c.heaps(a.heap, a.sort), a.idx)
+		r := Select(c.heaps(a.heap, a.sort), a.idx)
+		c.wfLoaded(r, t)
+		return r
 	case *Term:
 		switch u := under(t).(type) {
 		case *types.Struct:
@@ -817,9 +819,21 @@ func (c *SpecCtx) loadAt(addr Val, t types.Type) Val {
 			return av
 		}
 		h, s := cellHeap(t)
-		return Select(c.heaps(h, s), a)
+		r := Select(c.heaps(h, s), a)
+		c.wfLoaded(r, t)
+		return r
 	}
 	panic(sperr("loadAt %T", addr))
+}
+
+// wfLoaded: a slice read by a specification satisfies the type's invariant
+// (0 <= len <= cap, ...) in whatever heap it is read from, exactly as one read
+// by the code does
+func (c *SpecCtx) wfLoaded(r *Term, t types.Type) {
+	if c.st == nil || r.S != SSlice || hasBound(r) {
+		return
+	}
+	c.e.assumeWf(c.st, r, t)
 }
 
 func isNilType(t types.Type) bool {
@@ -1248,6 +1262,17 @@ func (c *SpecCtx) evalCall(x *ast.CallExpr) (Val, types.Type) {
 		return Implies(c.evalBool(x.Args[0]), c.evalBool(x.Args[1])), tBool
 	case "old":
 		return c.inOld().eval(x.Args[0])
+	case "sprintf":
+		var ts []*Term
+		for _, a := range x.Args {
+			v, _ := c.eval(a)
+			t, ok := v.(*Term)
+			if !ok || t.S != SStr {
+				panic(sperr("sprintf: string arguments only"))
+			}
+			ts = append(ts, t)
+		}
+		return sprintfApp(ts), types.Typ[types.String]
 	case "len":
 		v, t := c.eval(x.Args[0])
 		switch under(t).(type) {
